@@ -136,9 +136,9 @@ def to_engine(yp, t, vmap):
     if k == 'a':
         return yp.atom(t[1])
     if k == 'i':
-        return t[1]
+        return int(str(t[1]))      # a new object for every occurrence (equal integers need not be identical objects)
     if k == 's':          # python str constant (C02 only)
-        return t[1]
+        return ''.join(list(t[1]))
     if k == 'k':          # other python constant, given by its repr: None, 2.5, b'x', a tuple
         return PYCONSTS[t[1]]
     if k == 'f':
